@@ -1,5 +1,6 @@
 CONSTANTS
   NSlots = 12
+  Lean = FALSE
   Vocab = "link"
 INIT Init
 NEXT Next
